@@ -35,7 +35,9 @@ fn in_repo(msg: &str) -> bool {
 fn variants(n: usize) -> Vec<Kind> {
     use Kind::*;
     let mut v = all_unary(n);
-    for a in [0.5, 1.0, 2.0] {
+    // (weights alpha / (N + 1) of 1 and 1.5 included: the constructor accepts them and the
+    // recursion stays stable up to a weight of 2)
+    for a in [0.5, 1.0, 2.0, (n + 1) as f64, 1.5 * (n + 1) as f64] {
         v.push(EmaAlpha(n, a));
     }
     for s in [2.0, 6.0, 10.0] {
